@@ -302,6 +302,8 @@ def _run_dense(H, L, task):
     F, C, mask = task['F'], task['C'], task['mask']
     pp = H.load('pero_ocr.document_ocr.page_parser')
     W = [[z3.Real('w_%d_%d' % (t, c)) for c in range(C)] for t in range(F)]
+    V = [[z3.Real('v_%d_%d' % (t, c)) for c in range(C)] for t in range(F)]
+    state = {}
     K = 'C09:dense:'
 
     def case(m_, **kw):
@@ -324,6 +326,20 @@ def _run_dense(H, L, task):
         dense = line.get_dense_logits()
         full = pp.prepare_dense_logits(line)
         dense2 = line.get_dense_logits()
+        # the same line object then receives other logits (as load_logits does): reconstruction must follow
+        d3 = []
+        for t in range(F):
+            for c in range(C):
+                if mask[t * C + c] == '1':
+                    core.assume(V[t][c] > 0)
+                    logp.declare_pos(V[t][c])
+                    d3.append(LP(V[t][c], nz=True))
+                else:
+                    d3.append(0.0)
+        line.logits = shims.csc_matrix(symnp.A(d3, (F, C)))
+        dense3 = line.get_dense_logits()
+        full3 = line.get_full_logprobs()
+        state['dense3'], state['full3'] = dense3, full3
         return dense, full, dense2
 
     for p, res, exc in H.explore(body):
@@ -342,6 +358,20 @@ def _run_dense(H, L, task):
         if not ok:
             H.fail(K + 'stored-changed', 'dense reconstruction does not return stored logits unchanged and the floor for pruned entries',
                    lambda m_: case(m_))
+            continue
+        d3, f3 = state['dense3'], state['full3']
+        ok3 = True
+        for t in range(F):
+            for c in range(C):
+                x = d3[t, c]
+                if mask[t * C + c] == '1':
+                    ok3 = ok3 and isinstance(x, LP) and x.p.eq(V[t][c])
+                    fx = f3[t, c]
+                    df = logp.definition(fx.p) if isinstance(fx, LP) else None
+                    ok3 = ok3 and df is not None and logp._poly_zero(df[0] - V[t][c] * 1) is not None and 'w_' not in df[0].sexpr() and 'w_' not in df[1].sexpr()
+        if not ok3:
+            H.fail(K + 'stale-after-reload', 'after new logits were assigned to the line, dense reconstruction still returns the previous matrix',
+                   lambda m_: case(m_, second={'V': [[(mv(m_, S(V[t][c_])) if mask[t * C + c_] == '1' else None) for c_ in range(C)] for t in range(F)]}))
             continue
         rows = []
         for t in range(F):
